@@ -124,7 +124,7 @@ func (e CBC) Decrypt(key interface{}, ciphertextEl *etree.Element) ([]byte, erro
 	plaintext := make([]byte, len(ciphertext))
 	mode.CryptBlocks(plaintext, ciphertext) // decrypt in place
 
-	plaintext, err = stripPadding(plaintext)
+	plaintext, err = stripPadding(plaintext, block.BlockSize())
 	if err != nil {
 		return nil, err
 	}
@@ -176,13 +176,16 @@ func appendPadding(buf []byte, blockSize int) []byte {
 	return append(buf, padding...)
 }
 
-func stripPadding(buf []byte) ([]byte, error) {
+func stripPadding(buf []byte, blockSize int) ([]byte, error) {
 	if len(buf) < 1 {
 		return nil, errors.New("buffer is too short for padding")
 	}
 	paddingBytes := int(buf[len(buf)-1])
 	if paddingBytes > len(buf) {
 		return nil, errors.New("buffer is too short for padding")
+	}
+	if paddingBytes > blockSize {
+		return nil, errors.New("padding is longer than one block")
 	}
 	if paddingBytes < 1 {
 		return nil, errors.New("padding must be at least one byte")
